@@ -547,7 +547,10 @@ func (in *Interp) conv(tdst, tsrc types.Type, x Value) Value {
 			}
 			inRange := in.tt.And(in.tt.ICmp(OILe, in.tt.Int(lo), i), in.tt.ICmp(OILt, i, in.tt.Int(hi)))
 			if !in.branch(inRange) {
-				panic(unsupported{"float to integer conversion out of range (implementation-defined in Go)"})
+				// implementation-defined result: an arbitrary value of the target type
+				in.P.nondet = true
+				in.stubsUsed["float to integer conversion out of range: arbitrary result (implementation-defined in Go)"]++
+				return in.tt.Var(in.freshName("$f2i"), BVSort(w))
 			}
 			return in.tt.Int2BV(w, i)
 		}
